@@ -494,6 +494,8 @@ def run(ctx):
         ctx.violate = raw_violate
         if per_key:
             ctx.notes.append('failing inputs per class: ' + ', '.join(f'{k}={v}' for k, v in sorted(per_key.items())))
+    # ---- separate block: the SOURCE-REGENERATED legacy helpers (translator/pyio2lean.py) on the same requests ----
+    gen_legacy_stream(ctx, em, reqs)
 
 
 def _run_cases(ctx, T, e3m, reqs, outs, seen_paths):
@@ -901,3 +903,66 @@ def _run_sequences(ctx, T, e3m, seqs):
             if body != req:
                 ctx.violate(f'{layer} {kind}: call {r["step"]} of a sequence on one port/object does not transmit the documented command',
                             inp, repr(body[:6]), repr(req[:6]), key=f'seq-{layer}-{kind}-wrong-text')
+
+
+# ----------------------------------------------------------------------------------------------
+# validation of the regenerated legacy helpers (Gen.ebb_motion_*): same requests, same acknowledging board
+# ----------------------------------------------------------------------------------------------
+GEN_KIND = {   # request kind -> (function of ebb_motion.py, arguments after the port, from the request's argument tuple)
+    'xyMove': ('doXYMove', lambda a: a), 'abMove': ('doABMove', lambda a: a), 'absMove': ('doAbsMove', lambda a: a),
+    'lowLevel': ('doLowLevelMove', lambda a: a), 'timedPause': ('doTimedPause', lambda a: a),
+    'penDown': ('sendPenDown', lambda a: a), 'penUp': ('sendPenUp', lambda a: a),
+    'enable': ('sendEnableMotors', lambda a: a[:1]), 'disable': ('sendDisableMotors', lambda a: ()),
+    'pbConfig': ('PBOutConfig', lambda a: a[:2]), 'pbSet': ('PBOutValue', lambda a: a),
+    'togglePen': ('TogglePen', lambda a: ()), 'penPosDown': ('setPenDownPos', lambda a: a),
+    'penPosUp': ('setPenUpPos', lambda a: a), 'penRateDown': ('setPenDownRate', lambda a: a),
+    'penRateUp': ('setPenUpRate', lambda a: a), 'setLayer': ('setEBBLV', lambda a: a),
+    'queryLayer': ('queryEBBLV', lambda a: ()), 'servoTimeout': ('servo_timeout', lambda a: a),
+    'queryPenUp': ('QueryPenUp', lambda a: ()), 'queryButton': ('QueryPRGButton', lambda a: ()),
+    'querySteps': ('query_steps', lambda a: ()), 'queryVoltage': ('queryVoltage', lambda a: ()),
+    'queryMotorsPI': ('query_enable_motors', lambda a: ())}
+
+
+class RecordingLegacyPort(LegacyPort):
+    """the acknowledging legacy board, remembering what every readline() delivered"""
+
+    def __init__(self, version):
+        LegacyPort.__init__(self, version)
+        self.trace = []
+
+    def readline(self):
+        r = LegacyPort.readline(self)
+        self.trace.append(r)
+        return r
+
+
+def gen_legacy_stream(ctx, em, reqs, cap=6000):
+    from . import legacygen as G
+    if ctx.driver is None:
+        return
+    todo, seen = [], set()
+    for kind, a, board, ver in reqs:
+        if kind not in GEN_KIND or (kind, a, ver) in seen:
+            continue
+        if kind == 'timedPause' and abs(a[0]) > 300000:      # hundreds of thousands of writes: the theorem's job
+            continue
+        seen.add((kind, a, ver))
+        todo.append((kind, a, ver, True))
+        if len(todo) % 25 == 0:
+            todo.append((kind, a, ver, False))                # ... and without a port
+    if len(todo) > cap:
+        step = len(todo) / cap
+        todo = [todo[int(i * step)] for i in range(cap)]
+    lines, mine, inps = [], [], []
+    for kind, a, ver, with_port in todo:
+        fname, argf = GEN_KIND[kind]
+        args = tuple(argf(tuple(a)))
+        port = RecordingLegacyPort(ver)
+        res, _ = G.result_of(lambda: getattr(em, fname)(port if with_port else None, *args))
+        mine.append([G.record(res, port.sent, len(port.trace))])
+        lines.append(G.line(G.reads_tok(port.trace), '.', '.', [G.call_tok('ebb_motion_' + fname, ((port if with_port else None),) + args)]))
+        inps.append({'function': 'ebb_motion.' + fname, 'args': list(args), 'version': ver, 'port': with_port})
+    answers = ctx.driver.batch(lines)
+    for m, ans, inp in zip(mine, answers, inps):
+        G.compare(ctx, 'C06 legacy helper', inp, m, ans)
+    ctx.notes.append(f'regenerated legacy helpers (Gen.ebb_motion_*): {len(todo)} calls compared with the implementation')
